@@ -281,6 +281,46 @@ def _names_in(f) -> set[str]:
 
 
 # ------------------------------------------------------------------ symbolic values of locals
+class _Fold(ast.NodeTransformer):
+    """x + 0, 0 + x, x - 0, x * 1, 1 * x -> x (after a known local was substituted)"""
+
+    def visit_BinOp(self, node):
+        self.generic_visit(node)
+
+        def is_c(n, v):
+            return isinstance(n, ast.Constant) and not isinstance(n.value, bool) and n.value == v \
+                and isinstance(n.value, int)
+        if isinstance(node.op, ast.Add):
+            if is_c(node.right, 0):
+                return node.left
+            if is_c(node.left, 0):
+                return node.right
+        if isinstance(node.op, ast.Sub) and is_c(node.right, 0):
+            return node.left
+        if isinstance(node.op, ast.Mult):
+            if is_c(node.right, 1):
+                return node.left
+            if is_c(node.left, 1):
+                return node.right
+        return node
+
+
+_NAMES_CACHE: dict[str, frozenset] = {}
+
+
+def _names_of(text: str) -> frozenset:
+    """the local names (not attribute names) an expression text mentions"""
+    r = _NAMES_CACHE.get(text)
+    if r is None:
+        try:
+            r = frozenset(n.id for n in ast.walk(ast.parse(text, mode='eval')) if isinstance(n, ast.Name))
+        except SyntaxError:
+            r = frozenset(re.findall(r'[A-Za-z_]\w*', text))
+        if len(_NAMES_CACHE) < 20000:
+            _NAMES_CACHE[text] = r
+    return r
+
+
 def sym_values(max_len: int = 200):
     """-> (upd, resolve).  `upd` is a PathCond `upd` callback that keeps, per path, the defining
     expression of every plainly assigned local (`val:x=<expr>` with earlier locals substituted);
@@ -302,14 +342,20 @@ def sym_values(max_len: int = 200):
                 if isinstance(node.ctx, ast.Load) and node.id in vals:
                     return ast.parse(vals[node.id], mode='eval').body
                 return node
-        return T().visit(clone(e))
+        return _Fold().visit(T().visit(clone(e)))
 
     def upd(st, facts):
         tgts: list[tuple[str, ast.AST | None]] = []
+        simultaneous = False
         if isinstance(st, ast.Assign):
             for t in st.targets:
                 if isinstance(t, ast.Name):
                     tgts.append((t.id, st.value if len(st.targets) == 1 else None))
+                elif isinstance(t, (ast.Tuple, ast.List)) and isinstance(st.value, (ast.Tuple, ast.List)) \
+                        and len(t.elts) == len(st.value.elts) and len(st.targets) == 1 \
+                        and all(isinstance(x, ast.Name) for x in t.elts):
+                    tgts.extend((x.id, v) for x, v in zip(t.elts, st.value.elts))
+                    simultaneous = True
                 else:
                     tgts.extend((x.id, None) for x in ast.walk(t)
                                 if isinstance(x, ast.Name) and isinstance(x.ctx, ast.Store))
@@ -323,20 +369,22 @@ def sym_values(max_len: int = 200):
         if not tgts:
             return facts
         vals = _vals(facts)
+        vals0 = dict(vals)
         for name, val in tgts:
             new = None
             if val is not None and not any(isinstance(x, (ast.Await, ast.NamedExpr, ast.Lambda)) for x in ast.walk(val)):
                 try:
-                    text = ast.unparse(_sub(val, vals))
+                    # a, b = x, y evaluates every right-hand side before any name is bound
+                    text = ast.unparse(_sub(val, vals0 if simultaneous else vals))
                 except Exception:       # noqa: BLE001 - not representable, drop the value
                     text = None
                 if text is not None and len(text) <= max_len:
                     new = text
-            pat = re.compile(rf'\b{re.escape(name)}\b')
             facts = frozenset(f for f in facts if not (f.startswith('val:') and
-                                                       (f.startswith(f'val:{name}=') or pat.search(f.split('=', 1)[1]))))
+                                                       (f.startswith(f'val:{name}=')
+                                                        or name in _names_of(f.split('=', 1)[1]))))
             vals = _vals(facts)
-            if new is not None and not pat.search(new):
+            if new is not None and name not in _names_of(new):
                 facts = facts | {f'val:{name}={new}'}
                 vals[name] = new
         return facts
